@@ -72,6 +72,7 @@ type rootSpec struct {
 	NoID     bool          `json:"no_id"`            // the contact has no id (unsaved / simulator contacts)
 	Pinned   bool          `json:"pinned"`           // the contact's tel URN is already pinned to a channel
 	MsgOther bool          `json:"msg_other_scheme"` // messages arrive from the contact's twitterid URN instead of tel
+	Coincide bool          `json:"coincide"`         // in the second twin the two tel URNs have the same path (in the first they differ)
 }
 
 func (rs *rootSpec) world(t twin) *world.Root {
@@ -81,8 +82,12 @@ func (rs *rootSpec) world(t twin) *world.Root {
 	if rs.Pinned {
 		tel += "?channel=" + world.ChanTel
 	}
+	tel2 := t.tel2
+	if rs.Coincide && t == twins[1] {
+		tel2 = t.tel // whether two paths are equal is also something the paths say
+	}
 	contact := world.J{"uuid": world.UUID("contact"), "id": 1234, "name": "Ann", "language": "eng", "status": "active",
-		"created_on": "2020-01-01T12:00:00.000000000Z", "urns": []any{tel, t.twitterid, t.tel2}}
+		"created_on": "2020-01-01T12:00:00.000000000Z", "urns": []any{tel, t.twitterid, tel2}}
 	if rs.Nameless {
 		delete(contact, "name")
 	}
@@ -103,7 +108,7 @@ func (rs *rootSpec) world(t twin) *world.Root {
 }
 
 func (rs *rootSpec) String() string {
-	return fmt.Sprintf("%s | trigger=%s policy=%s nameless=%v no-id=%v pinned=%v msg-other-scheme=%v", rs.Flows.String(), rs.Trigger, rs.Policy, rs.Nameless, rs.NoID, rs.Pinned, rs.MsgOther)
+	return fmt.Sprintf("%s | trigger=%s policy=%s nameless=%v no-id=%v pinned=%v msg-other-scheme=%v coincide=%v", rs.Flows.String(), rs.Trigger, rs.Policy, rs.Nameless, rs.NoID, rs.Pinned, rs.MsgOther, rs.Coincide)
 }
 
 type replay struct {
@@ -139,6 +144,7 @@ func specs(tier string) []rootSpec {
 		out = append(out, rootSpec{Flows: fs, Trigger: "manual", Policy: "urns", Nameless: true, NoID: true})
 		out = append(out, rootSpec{Flows: fs, Trigger: "manual", Policy: "urns", Pinned: true})
 		out = append(out, rootSpec{Flows: fs, Trigger: "msg", Policy: "urns", MsgOther: true})
+		out = append(out, rootSpec{Flows: fs, Trigger: "manual", Policy: "urns", Coincide: true})
 	}
 	return out
 }
